@@ -35,6 +35,8 @@ def _to_rectilinear(arg):
     ):
         nplike = ak.nplike.of(arg)
         return nplike.to_rectilinear(arg)
+    elif isinstance(arg, (tuple, list)):
+        return type(arg)(_to_rectilinear(x) for x in arg)
     else:
         return arg
 
